@@ -400,17 +400,25 @@ def r5_wrappers(ck, F, R="C03-R5"):
 
 
 # ---------------------------------------------------------------------------------------
+def _is_none_alt(a):
+    """`None`, or the `None` that `x?` returns for an Option x"""
+    if a.k == "agg" and a.x.get("variant") == "None":
+        return True
+    s = a.strip()
+    return s.k == "call" and s.x["path"].endswith("::from_residual") and "option::Option" in s.x["path"]
+
+
 def r6_current(ck, F):
     R = "C03-R6"
     cur = F.body(A("rc_prefix") + "current")
-    alts = [a for a in return_alts(cur) if not (a.k == "agg" and a.x.get("variant") == "None")]
+    alts = [a for a in return_alts(cur) if not _is_none_alt(a)]
     ok = len(alts) == 1 and alts[0].k == "call" and alts[0].x["path"].endswith(A("bc_current"))
     if ok:
         src = unwrap_payload(alts[0].a[0], "Some")
         ok = src is not None and is_self_field(src, "current_cursor")
     ck.ob(R, "current-reads-block-cursor", ok, f"ReaderCursor::current = {cur.expr_at_return().show()[:140]} (the block cursor's current entry, or None when there is no block cursor)", cur)
     bcur = F.body(A("bc_current"))
-    alts = [a for a in return_alts(bcur) if not (a.k == "agg" and a.x.get("variant") == "None")]
+    alts = [a for a in return_alts(bcur) if not _is_none_alt(a)]
     ok = len(alts) == 1 and alts[0].k == "agg" and alts[0].x.get("variant") == "Some"
     ent = None
     if ok:
